@@ -10,7 +10,8 @@ DESIGN_REF = "DESIGN.md §2 C43"
 TECHNIQUE = ("Lean 4 theorems over a per-class transcription of __eq__/__ne__/__hash__ and of CPython's operator dispatch "
              "(NotImplemented, reflected call, identity fallback); differential correspondence on pairs of real cap and node "
              "objects at operator and at method granularity")
-LEVEL_TEXT = ("eq_iff_same_string, ne_is_not_eq, eq_symmetric and eq_implies_hash_eq are proved in Lean for every pair of "
+LEVEL_TEXT = ("eq_iff_same_string, ne_is_not_eq, eq_reflexive/eq_symmetric/eq_transitive, cross_class_unequal, "
+              "cross_kind_caps_unequal, eqMethod_total, hash_depends_only_on_class_and_caps and eq_implies_hash_eq are proved in Lean for every pair of "
               "modelled classes (18 cap classes, UnknownURI, ImmutableFileNode, LiteralFileNode, MutableFileNode, "
               "DirectoryNode, UnknownNode, unrelated objects); the model is tied to the code by comparing ==, !=, the four "
               "method results and hash equality on seeded pairs of real objects, and by extracted class prefixes and "
